@@ -28,6 +28,9 @@ theorem manyF_step {α} (p : P α) (fuel : Nat) (ts rest : List Item) (a : α) (
     manyF p (fuel + 1) ts = some (a :: as, rest') := by
   simp only [manyF, h, hlt, if_true, hrec]
 
+theorem sepBy_nil_of_none {α β} (p : P α) (sep : P β) (ts : List Item) (h : p ts = none) :
+    sepBy p sep ts = some ([], ts) := by simp only [sepBy, h]
+
 def flat {α} (segs : List (α × List Item)) : List Item := segs.flatMap (·.2)
 
 /-- `p` reads the segments one after the other and fails on what follows them -/
@@ -74,13 +77,55 @@ theorem many_chain {α} (p : P α) (segs : List (α × List Item)) (rest : List 
   simp only [List.length_append]; omega
 
 
+/-- like `Chain`, for a list `p ** _`: `p` reads the segments, layout between them is none, `p` fails on what follows -/
+def ChainW {α} (p : P α) : List (α × List Item) → List Item → Prop
+  | [], rest => p rest = none ∧ ws rest = some ((), rest)
+  | (a, seg) :: more, rest => seg ≠ [] ∧ ws (seg ++ (flat more ++ rest)) = some ((), seg ++ (flat more ++ rest)) ∧
+      p (seg ++ (flat more ++ rest)) = some (a, flat more ++ rest) ∧ ChainW p more rest
+
+theorem chainW_chain {α} (p : P α) : ∀ (segs : List (α × List Item)) (rest : List Item),
+    ChainW p segs rest → Chain (do let _ ← ws; p : P α) segs rest := by
+  intro segs
+  induction segs with
+  | nil => intro rest h; show (do let _ ← ws; p : P α) rest = none; rw [bind_some _ _ _ _ _ h.2]; exact h.1
+  | cons x more ih =>
+    intro rest h
+    obtain ⟨a, seg⟩ := x
+    obtain ⟨hne, hws, hp, hmore⟩ := h
+    refine ⟨hne, ?_, ih rest hmore⟩
+    rw [bind_some _ _ _ _ _ hws]; exact hp
+
+theorem chainW_nonempty {α} (p : P α) : ∀ (segs : List (α × List Item)) (rest : List Item), ChainW p segs rest → ∀ x ∈ segs, x.2 ≠ [] := by
+  intro segs
+  induction segs with
+  | nil => intro rest _ x hx; cases hx
+  | cons y more ih =>
+    intro rest h x hx
+    obtain ⟨a, seg⟩ := y
+    rcases List.mem_cons.mp hx with rfl | hx
+    · exact h.1
+    · exact ih rest h.2.2.2 x hx
+
+/-- `p ** _` on a chain -/
+theorem sepBy_chainW {α} (p : P α) (segs : List (α × List Item)) (rest : List Item) (h : ChainW p segs rest) :
+    sepBy p ws (flat segs ++ rest) = some (segs.map (·.1), rest) := by
+  cases segs with
+  | nil => simpa [flat] using sepBy_nil_of_none p ws rest h.1
+  | cons x more =>
+    obtain ⟨a, seg⟩ := x
+    obtain ⟨hne, hws, hp, hmore⟩ := h
+    have hm := many_chain (do let _ ← ws; p : P α) more rest (chainW_chain p more rest hmore) (chainW_nonempty p more rest hmore)
+    have hfl : flat ((a, seg) :: more) ++ rest = seg ++ (flat more ++ rest) := by simp [flat]
+    rw [hfl]
+    simp only [sepBy, hp, hm, List.map_cons]
+
 /-! ### the syntax of statement token lists -/
 
 mutual
   inductive St where
     | assign (name asg : Item) (e : S)
-    | ifS (kIf kThen : Item) (c : S) (body : Stl) (kEnd : Item)
-    | ifElse (kIf kThen : Item) (c : S) (body : Stl) (kElse : Item) (els : Stl) (kEnd : Item)
+    | ifS (kIf kThen : Item) (c : S) (body : Stl) (elifs : Elifs) (kEnd : Item)
+    | ifElse (kIf kThen : Item) (c : S) (body : Stl) (elifs : Elifs) (kElse : Item) (els : Stl) (kEnd : Item)
     | whileS (kWhile kDo : Item) (c : S) (body : Stl) (kEnd : Item)
     | repeatS (kRep : Item) (body : Stl) (kUntil : Item) (c : S) (kEnd : Item)
     /-- `FOR ctl := frm TO to [BY step] DO body END_FOR` -/
@@ -91,13 +136,17 @@ mutual
   inductive Stl where
     | nil
     | cons (s : St) (semi : Item) (rest : Stl)
+  /-- `ELSIF c THEN body` branches -/
+  inductive Elifs where
+    | nil
+    | cons (kElsif kThen : Item) (c : S) (body : Stl) (rest : Elifs)
 end
 
 mutual
   def St.toks : St → List Item
     | .assign n a e => n :: a :: e.toks
-    | .ifS kIf kThen c body kEnd => kIf :: (c.toks ++ kThen :: (body.toks ++ [kEnd]))
-    | .ifElse kIf kThen c body kElse els kEnd => kIf :: (c.toks ++ kThen :: (body.toks ++ kElse :: (els.toks ++ [kEnd])))
+    | .ifS kIf kThen c body elifs kEnd => kIf :: (c.toks ++ kThen :: (body.toks ++ (elifs.toks ++ [kEnd])))
+    | .ifElse kIf kThen c body elifs kElse els kEnd => kIf :: (c.toks ++ kThen :: (body.toks ++ (elifs.toks ++ kElse :: (els.toks ++ [kEnd]))))
     | .whileS kW kDo c body kEnd => kW :: (c.toks ++ kDo :: (body.toks ++ [kEnd]))
     | .repeatS kR body kU c kEnd => kR :: (body.toks ++ kU :: (c.toks ++ [kEnd]))
     | .forS kFor ctl asg frm kTo to none kDo body kEnd =>
@@ -109,6 +158,9 @@ mutual
   def Stl.toks : Stl → List Item
     | .nil => []
     | .cons s semi rest => s.toks ++ semi :: rest.toks
+  def Elifs.toks : Elifs → List Item
+    | .nil => []
+    | .cons kE kT c body rest => kE :: (c.toks ++ kT :: (body.toks ++ rest.toks))
 end
 
 mutual
@@ -116,9 +168,9 @@ mutual
   def St.sx : St → Sx
     | .assign n _ e => .t "Assignment" [.n "Assignment"
         [("target", .t "Symbolic" [.t "Named" [.n "NamedVariable" [("name", .a (txt n))]]]), ("value", e.sx)]]
-    | .ifS _ _ c body _ => .t "If" [.n "If" [("expr", c.sx), ("body", .l body.sxs), ("else_ifs", .l []), ("else_body", .l [])]]
-    | .ifElse _ _ c body _ els _ =>
-        .t "If" [.n "If" [("expr", c.sx), ("body", .l body.sxs), ("else_ifs", .l []), ("else_body", .l els.sxs)]]
+    | .ifS _ _ c body elifs _ => .t "If" [.n "If" [("expr", c.sx), ("body", .l body.sxs), ("else_ifs", .l elifs.sxs), ("else_body", .l [])]]
+    | .ifElse _ _ c body elifs _ els _ =>
+        .t "If" [.n "If" [("expr", c.sx), ("body", .l body.sxs), ("else_ifs", .l elifs.sxs), ("else_body", .l els.sxs)]]
     | .whileS _ _ c body _ => .t "While" [.n "While" [("condition", c.sx), ("body", .l body.sxs)]]
     | .repeatS _ body _ c _ => .t "Repeat" [.n "Repeat" [("until", c.sx), ("body", .l body.sxs)]]
     | .forS _ ctl _ frm _ to step _ body _ =>
@@ -129,6 +181,9 @@ mutual
   def Stl.sxs : Stl → List Sx
     | .nil => []
     | .cons s _ rest => s.sx :: rest.sxs
+  def Elifs.sxs : Elifs → List Sx
+    | .nil => []
+    | .cons _ _ c body rest => .n "ElseIf" [("expr", c.sx), ("body", .l body.sxs)] :: rest.sxs
 end
 
 def Stl.isNil : Stl → Bool
@@ -138,9 +193,9 @@ def Stl.isNil : Stl → Bool
 mutual
   def St.WF : St → Prop
     | .assign n a e => n.ty = "Identifier" ∧ a.ty = "Assignment" ∧ e.WF 0
-    | .ifS kIf kThen c body kEnd => kIf.ty = "If" ∧ kThen.ty = "Then" ∧ kEnd.ty = "EndIf" ∧ c.WF 0 ∧ body.WF
-    | .ifElse kIf kThen c body kElse els kEnd =>
-        kIf.ty = "If" ∧ kThen.ty = "Then" ∧ kElse.ty = "Else" ∧ kEnd.ty = "EndIf" ∧ c.WF 0 ∧ body.WF ∧ els.WF ∧ els.isNil = false
+    | .ifS kIf kThen c body elifs kEnd => kIf.ty = "If" ∧ kThen.ty = "Then" ∧ kEnd.ty = "EndIf" ∧ c.WF 0 ∧ body.WF ∧ elifs.WF
+    | .ifElse kIf kThen c body elifs kElse els kEnd =>
+        kIf.ty = "If" ∧ kThen.ty = "Then" ∧ kElse.ty = "Else" ∧ kEnd.ty = "EndIf" ∧ c.WF 0 ∧ body.WF ∧ els.WF ∧ els.isNil = false ∧ elifs.WF
     | .whileS kW kDo c body kEnd => kW.ty = "While" ∧ kDo.ty = "Do" ∧ kEnd.ty = "EndWhile" ∧ c.WF 0 ∧ body.WF ∧ body.isNil = false
     | .repeatS kR body kU c kEnd => kR.ty = "Repeat" ∧ kU.ty = "Until" ∧ kEnd.ty = "EndRepeat" ∧ c.WF 0 ∧ body.WF ∧ body.isNil = false
     | .forS kFor ctl asg frm kTo to step kDo body kEnd =>
@@ -152,14 +207,17 @@ mutual
   def Stl.WF : Stl → Prop
     | .nil => True
     | .cons s semi rest => s.WF ∧ semi.ty = "Semicolon" ∧ rest.WF
+  def Elifs.WF : Elifs → Prop
+    | .nil => True
+    | .cons kE kT c body rest => kE.ty = "Elsif" ∧ kT.ty = "Then" ∧ c.WF 0 ∧ body.WF ∧ body.isNil = false ∧ rest.WF
 end
 
 mutual
   /-- fuel that suffices for `statement` -/
   def St.need : St → Nat
     | .assign _ _ e => e.need + 4
-    | .ifS _ _ c body _ => c.need + body.need + 8
-    | .ifElse _ _ c body _ els _ => c.need + body.need + els.need + 8
+    | .ifS _ _ c body elifs _ => c.need + body.need + elifs.need + 8
+    | .ifElse _ _ c body elifs _ els _ => c.need + body.need + elifs.need + els.need + 8
     | .whileS _ _ c body _ => c.need + body.need + 8
     | .repeatS _ body _ c _ => c.need + body.need + 8
     | .forS _ _ _ frm _ to step _ body _ => frm.need + to.need + (match step with | none => 0 | some (_, st) => st.need) + body.need + 8
@@ -168,6 +226,9 @@ mutual
   def Stl.need : Stl → Nat
     | .nil => 0
     | .cons s _ rest => s.need + rest.need
+  def Elifs.need : Elifs → Nat
+    | .nil => 0
+    | .cons _ _ c body rest => c.need + body.need + rest.need + 4
 end
 
 /-! ### keywords that end a statement list, and what follows an expression inside a statement -/
@@ -327,67 +388,29 @@ def lastSemi (prev : Item) : Stl → Item
   | .nil => prev
   | .cons _ semi rest => lastSemi semi rest
 
-theorem flat_chainOf (l : Stl) : ∀ prev, prev :: l.toks = flat (chainOf prev l) ++ [lastSemi prev l] := by
-  induction l using Stl.rec (motive_1 := fun _ => True) with
-  | nil => intro prev; simp [Stl.toks, chainOf, lastSemi, flat]
-  | cons s semi rest _ ih =>
-    intro prev
-    have := ih semi
+theorem flat_chainOf : (l : Stl) → ∀ prev, prev :: l.toks = flat (chainOf prev l) ++ [lastSemi prev l]
+  | .nil, prev => by simp [Stl.toks, chainOf, lastSemi, flat]
+  | .cons s semi rest, prev => by
+    have := flat_chainOf rest semi
     simp only [Stl.toks, chainOf, lastSemi, flat, List.flatMap_cons] at this ⊢
     rw [List.append_assoc, ← this]
     simp
-  | assign => trivial
-  | ifS => trivial
-  | ifElse => trivial
-  | whileS => trivial
-  | repeatS => trivial
-  | forS => trivial
-  | exitS => trivial
-  | returnS => trivial
 
-theorem map_chainOf (l : Stl) : ∀ prev, (chainOf prev l).map (·.1) = l.sxs := by
-  induction l using Stl.rec (motive_1 := fun _ => True) with
-  | nil => intro prev; rfl
-  | cons s semi rest _ ih => intro prev; simp only [chainOf, List.map_cons, Stl.sxs, ih semi]
-  | assign => trivial
-  | ifS => trivial
-  | ifElse => trivial
-  | whileS => trivial
-  | repeatS => trivial
-  | forS => trivial
-  | exitS => trivial
-  | returnS => trivial
+theorem map_chainOf : (l : Stl) → ∀ prev, (chainOf prev l).map (·.1) = l.sxs
+  | .nil, _ => rfl
+  | .cons _ semi rest, _ => by simp only [chainOf, List.map_cons, Stl.sxs, map_chainOf rest semi]
 
-theorem lastSemi_ty (l : Stl) : ∀ prev, prev.ty = "Semicolon" → l.WF → (lastSemi prev l).ty = "Semicolon" := by
-  induction l using Stl.rec (motive_1 := fun _ => True) with
-  | nil => intro prev h _; exact h
-  | cons s semi rest _ ih => intro prev _ hwf; exact ih semi hwf.2.1 hwf.2.2
-  | assign => trivial
-  | ifS => trivial
-  | ifElse => trivial
-  | whileS => trivial
-  | repeatS => trivial
-  | forS => trivial
-  | exitS => trivial
-  | returnS => trivial
+theorem lastSemi_ty : (l : Stl) → ∀ prev, prev.ty = "Semicolon" → l.WF → (lastSemi prev l).ty = "Semicolon"
+  | .nil, prev, h, _ => h
+  | .cons s semi rest, prev, _, hwf => lastSemi_ty rest semi hwf.2.1 hwf.2.2
 
-theorem chainOf_nonempty (l : Stl) : ∀ prev, ∀ x ∈ chainOf prev l, x.2 ≠ [] := by
-  induction l using Stl.rec (motive_1 := fun _ => True) with
-  | nil => intro prev x hx; cases hx
-  | cons s semi rest _ ih =>
-    intro prev x hx
+theorem chainOf_nonempty : (l : Stl) → ∀ prev, ∀ x ∈ chainOf prev l, x.2 ≠ []
+  | .nil, prev, x, hx => by cases hx
+  | .cons s semi rest, prev, x, hx => by
     simp only [chainOf, List.mem_cons] at hx
     rcases hx with rfl | hx
     · simp
-    · exact ih semi x hx
-  | assign => trivial
-  | ifS => trivial
-  | ifElse => trivial
-  | whileS => trivial
-  | repeatS => trivial
-  | forS => trivial
-  | exitS => trivial
-  | returnS => trivial
+    · exact chainOf_nonempty rest semi x hx
 
 /-- a statement starts with a name or a statement keyword -/
 def isStart (ty : String) : Bool :=
@@ -512,48 +535,78 @@ theorem statementList_none_closer (g : Nat) (K : Item) (R : List Item) (hK : isC
     unfold many1
     exact bind_none _ _ _ (statementsOrEmpty_none_closer g K R hK)
 
-/-- `IF c THEN body END_IF` (`body` may be empty) -/
-theorem ifStatement_reads (g : Nat) (kIf kThen kEnd : Item) (ctoks btoks rest : List Item) (c : Sx) (ob : Option (List Sx))
+/-- one `ELSIF c THEN body` branch, as written inside `ifStatement` -/
+def elsifP (g : Nat) : P Sx := do
+  let _ ← tok "Elsif"; ws; let e ← expression g; ws; let _ ← tok "Then"; ws
+  let b ← statementList g
+  pure (Sx.n "ElseIf" [("expr", e), ("body", .l b)])
+
+theorem elsifP_reads (g : Nat) (kE kT : Item) (ctoks btoks T : List Item) (c : Sx) (b : List Sx)
+    (hE : kE.ty = "Elsif") (hT : kT.ty = "Then")
+    (hwsc : ws (ctoks ++ kT :: (btoks ++ T)) = some ((), ctoks ++ kT :: (btoks ++ T)))
+    (hc : expression g (ctoks ++ kT :: (btoks ++ T)) = some (c, kT :: (btoks ++ T)))
+    (hwsb : ws (btoks ++ T) = some ((), btoks ++ T))
+    (hb : statementList g (btoks ++ T) = some (b, T)) :
+    elsifP g (kE :: (ctoks ++ kT :: (btoks ++ T))) = some (.n "ElseIf" [("expr", c), ("body", .l b)], T) := by
+  unfold elsifP
+  rw [bind_some _ _ _ _ _ (tok_hit _ _ _ hE), bind_some _ _ _ _ _ hwsc, bind_some _ _ _ _ _ hc,
+    bind_some _ _ _ _ _ (ws_cons kT _ (by rw [hT]; decide)), bind_some _ _ _ _ _ (tok_hit _ _ _ hT),
+    bind_some _ _ _ _ _ hwsb, bind_some _ _ _ _ _ hb]
+  rfl
+
+theorem elsifP_none (g : Nat) (K : Item) (R : List Item) (h : K.ty ≠ "Elsif") : elsifP g (K :: R) = none := by
+  unfold elsifP
+  exact bind_none _ _ _ (tok_miss _ _ _ h)
+
+/-- `IF c THEN body {ELSIF ..} END_IF` (`body` may be empty); `T` is what follows the body -/
+theorem ifStatement_reads (g : Nat) (kIf kThen kEnd : Item) (ctoks btoks T rest : List Item) (c : Sx) (ob : Option (List Sx))
+    (xs : List Sx)
     (hIf : kIf.ty = "If") (hThen : kThen.ty = "Then") (hEnd : kEnd.ty = "EndIf")
-    (hwsc : ws (ctoks ++ kThen :: (btoks ++ kEnd :: rest)) = some ((), ctoks ++ kThen :: (btoks ++ kEnd :: rest)))
-    (hc : expression g (ctoks ++ kThen :: (btoks ++ kEnd :: rest)) = some (c, kThen :: (btoks ++ kEnd :: rest)))
-    (hwsb : ws (btoks ++ kEnd :: rest) = some ((), btoks ++ kEnd :: rest))
-    (hb : P.opt (statementList g) (btoks ++ kEnd :: rest) = some (ob, kEnd :: rest)) :
-    ifStatement (g + 1) (kIf :: (ctoks ++ kThen :: (btoks ++ kEnd :: rest))) =
-      some (.t "If" [.n "If" [("expr", c), ("body", .l (ob.getD [])), ("else_ifs", .l []), ("else_body", .l [])]], rest) := by
+    (hwsc : ws (ctoks ++ kThen :: (btoks ++ T)) = some ((), ctoks ++ kThen :: (btoks ++ T)))
+    (hc : expression g (ctoks ++ kThen :: (btoks ++ T)) = some (c, kThen :: (btoks ++ T)))
+    (hwsb : ws (btoks ++ T) = some ((), btoks ++ T))
+    (hb : P.opt (statementList g) (btoks ++ T) = some (ob, T))
+    (hwsx : ws T = some ((), T))
+    (hx : sepBy (elsifP g) ws T = some (xs, kEnd :: rest)) :
+    ifStatement (g + 1) (kIf :: (ctoks ++ kThen :: (btoks ++ T))) =
+      some (.t "If" [.n "If" [("expr", c), ("body", .l (ob.getD [])), ("else_ifs", .l xs), ("else_body", .l [])]], rest) := by
   rw [ifStatement]
   have hwsE : ws (kEnd :: rest) = some ((), kEnd :: rest) := ws_cons _ _ (by rw [hEnd]; decide)
+  unfold elsifP at hx
   rw [bind_some _ _ _ _ _ (tok_hit _ _ _ hIf), bind_some _ _ _ _ _ hwsc, bind_some _ _ _ _ _ hc,
     bind_some _ _ _ _ _ (ws_cons kThen _ (by rw [hThen]; decide)), bind_some _ _ _ _ _ (tok_hit _ _ _ hThen),
-    bind_some _ _ _ _ _ hwsb, bind_some _ _ _ _ _ hb, bind_some _ _ _ _ _ hwsE,
-    bind_some _ _ _ _ _ (sepBy_of_none _ _ _ (bind_none _ _ _ (tok_miss _ _ _ (by rw [hEnd]; decide)))),
+    bind_some _ _ _ _ _ hwsb, bind_some _ _ _ _ _ hb, bind_some _ _ _ _ _ hwsx,
+    bind_some _ _ _ _ _ hx,
     bind_some _ _ _ _ _ hwsE,
     bind_some _ _ _ _ _ (opt_none _ _ (bind_none _ _ _ (tok_miss _ _ _ (by rw [hEnd]; decide)))),
     bind_some _ _ _ _ _ hwsE, bind_some _ _ _ _ _ (tok_hit _ _ _ hEnd)]
   rfl
 
-/-- `IF c THEN body ELSE els END_IF` -/
-theorem ifElse_reads (g : Nat) (kIf kThen kElse kEnd : Item) (ctoks btoks etoks rest : List Item) (c : Sx)
-    (ob : Option (List Sx)) (els : List Sx)
+/-- `IF c THEN body {ELSIF ..} ELSE els END_IF` -/
+theorem ifElse_reads (g : Nat) (kIf kThen kElse kEnd : Item) (ctoks btoks T etoks rest : List Item) (c : Sx)
+    (ob : Option (List Sx)) (xs els : List Sx)
     (hIf : kIf.ty = "If") (hThen : kThen.ty = "Then") (hElse : kElse.ty = "Else") (hEnd : kEnd.ty = "EndIf")
-    (hwsc : ws (ctoks ++ kThen :: (btoks ++ kElse :: (etoks ++ kEnd :: rest))) = some ((), ctoks ++ kThen :: (btoks ++ kElse :: (etoks ++ kEnd :: rest))))
-    (hc : expression g (ctoks ++ kThen :: (btoks ++ kElse :: (etoks ++ kEnd :: rest))) = some (c, kThen :: (btoks ++ kElse :: (etoks ++ kEnd :: rest))))
-    (hwsb : ws (btoks ++ kElse :: (etoks ++ kEnd :: rest)) = some ((), btoks ++ kElse :: (etoks ++ kEnd :: rest)))
-    (hb : P.opt (statementList g) (btoks ++ kElse :: (etoks ++ kEnd :: rest)) = some (ob, kElse :: (etoks ++ kEnd :: rest)))
+    (hwsc : ws (ctoks ++ kThen :: (btoks ++ T)) = some ((), ctoks ++ kThen :: (btoks ++ T)))
+    (hc : expression g (ctoks ++ kThen :: (btoks ++ T)) = some (c, kThen :: (btoks ++ T)))
+    (hwsb : ws (btoks ++ T) = some ((), btoks ++ T))
+    (hb : P.opt (statementList g) (btoks ++ T) = some (ob, T))
+    (hwsx : ws T = some ((), T))
+    (hx : sepBy (elsifP g) ws T = some (xs, kElse :: (etoks ++ kEnd :: rest)))
     (hwse : ws (etoks ++ kEnd :: rest) = some ((), etoks ++ kEnd :: rest))
     (he : statementList g (etoks ++ kEnd :: rest) = some (els, kEnd :: rest)) :
-    ifStatement (g + 1) (kIf :: (ctoks ++ kThen :: (btoks ++ kElse :: (etoks ++ kEnd :: rest)))) =
-      some (.t "If" [.n "If" [("expr", c), ("body", .l (ob.getD [])), ("else_ifs", .l []), ("else_body", .l els)]], rest) := by
+    ifStatement (g + 1) (kIf :: (ctoks ++ kThen :: (btoks ++ T))) =
+      some (.t "If" [.n "If" [("expr", c), ("body", .l (ob.getD [])), ("else_ifs", .l xs), ("else_body", .l els)]], rest) := by
   rw [ifStatement]
   have hwsE : ws (kEnd :: rest) = some ((), kEnd :: rest) := ws_cons _ _ (by rw [hEnd]; decide)
   have hwsL : ws (kElse :: (etoks ++ kEnd :: rest)) = some ((), kElse :: (etoks ++ kEnd :: rest)) := ws_cons _ _ (by rw [hElse]; decide)
   have helse : (do let _ ← tok "Else"; ws; statementList g : P (List Sx)) (kElse :: (etoks ++ kEnd :: rest)) = some (els, kEnd :: rest) := by
     rw [bind_some _ _ _ _ _ (tok_hit _ _ _ hElse), bind_some _ _ _ _ _ hwse]
     exact he
+  unfold elsifP at hx
   rw [bind_some _ _ _ _ _ (tok_hit _ _ _ hIf), bind_some _ _ _ _ _ hwsc, bind_some _ _ _ _ _ hc,
     bind_some _ _ _ _ _ (ws_cons kThen _ (by rw [hThen]; decide)), bind_some _ _ _ _ _ (tok_hit _ _ _ hThen),
-    bind_some _ _ _ _ _ hwsb, bind_some _ _ _ _ _ hb, bind_some _ _ _ _ _ hwsL,
-    bind_some _ _ _ _ _ (sepBy_of_none _ _ _ (bind_none _ _ _ (tok_miss _ _ _ (by rw [hElse]; decide)))),
+    bind_some _ _ _ _ _ hwsb, bind_some _ _ _ _ _ hb, bind_some _ _ _ _ _ hwsx,
+    bind_some _ _ _ _ _ hx,
     bind_some _ _ _ _ _ hwsL,
     bind_some _ _ _ _ _ (opt_some _ _ _ _ helse),
     bind_some _ _ _ _ _ hwsE, bind_some _ _ _ _ _ (tok_hit _ _ _ hEnd)]
@@ -673,6 +726,52 @@ theorem ws_stl (l : Stl) (hl : l.WF) (K : Item) (R : List Item) (hK : isCloser K
 theorem sxs_getD (l : Stl) : (if l.isNil then none else some l.sxs : Option (List Sx)).getD [] = l.sxs := by
   cases l <;> rfl
 
+/-- the `ELSIF` branches as segments of a `ChainW` -/
+def segsE : Elifs → List (Sx × List Item)
+  | .nil => []
+  | .cons kE kT c body rest =>
+      (.n "ElseIf" [("expr", c.sx), ("body", .l body.sxs)], kE :: (c.toks ++ kT :: body.toks)) :: segsE rest
+
+theorem flat_segsE : (e : Elifs) → flat (segsE e) = e.toks
+  | .nil => rfl
+  | .cons kE kT c body rest => by
+    have := flat_segsE rest
+    simp only [flat] at this
+    simp only [segsE, flat, List.flatMap_cons, Elifs.toks, this]
+    simp
+
+theorem map_segsE : (e : Elifs) → (segsE e).map (·.1) = e.sxs
+  | .nil => rfl
+  | .cons kE kT c body rest => by simp only [segsE, List.map_cons, Elifs.sxs, map_segsE rest]
+
+/-- what follows a statement list inside an IF is a keyword that closes it -/
+theorem elifs_head (e : Elifs) (he : e.WF) (K : Item) (R : List Item) (hK : isCloser K.ty = true) :
+    ∃ K' R', isCloser K'.ty = true ∧ e.toks ++ K :: R = K' :: R' := by
+  cases e with
+  | nil => exact ⟨K, R, hK, rfl⟩
+  | cons kE kT c body rest => exact ⟨kE, _, by rw [he.1]; decide, rfl⟩
+
+theorem opt_body_readsT (l : Stl) (g : Nat) (T : List Item) (hT : ∃ K R, isCloser K.ty = true ∧ T = K :: R)
+    (h : l.isNil = false → statementList g (l.toks ++ T) = some (l.sxs, T)) :
+    P.opt (statementList g) (l.toks ++ T) = some (if l.isNil then none else some l.sxs, T) := by
+  obtain ⟨K, R, hK, rfl⟩ := hT
+  exact opt_body_reads l g K R hK h
+
+theorem ws_stlT (l : Stl) (hl : l.WF) (T : List Item) (hT : ∃ K R, isCloser K.ty = true ∧ T = K :: R) :
+    ws (l.toks ++ T) = some ((), l.toks ++ T) := by
+  obtain ⟨K, R, hK, rfl⟩ := hT
+  exact ws_stl l hl K R hK
+
+theorem ws_T (T : List Item) (hT : ∃ K R, isCloser K.ty = true ∧ T = K :: R) : ws T = some ((), T) := by
+  obtain ⟨K, R, hK, rfl⟩ := hT
+  exact ws_cons _ _ (closer_not_trivia hK)
+
+theorem elifs_sepBy (e : Elifs) (g : Nat) (K : Item) (R : List Item)
+    (h : ChainW (elsifP g) (segsE e) (K :: R)) :
+    sepBy (elsifP g) ws (e.toks ++ K :: R) = some (e.sxs, K :: R) := by
+  have := sepBy_chainW (elsifP g) (segsE e) (K :: R) h
+  rwa [flat_segsE, map_segsE] at this
+
 mutual
   theorem st_reads : (s : St) → s.WF → ∀ (F : Nat) (semi : Item) (R : List Item), semi.ty = "Semicolon" → s.need ≤ F →
       statement F (s.toks ++ semi :: R) = some (s.sx, semi :: R)
@@ -683,39 +782,53 @@ mutual
         (by simp only [St.need] at hF; omega)
       have := statement_assign g n a (e.toks ++ semi :: R) (semi :: R) e.sx hn ha (ws_toks e 0 _ he) hexp
       simpa [St.toks, St.sx] using this
-    | .ifS kIf kThen c body kEnd, hwf, F, semi, R, hsemi, hF => by
-      obtain ⟨hIf, hThen, hEnd, hc, hb⟩ := hwf
+    | .ifS kIf kThen c body elifs kEnd, hwf, F, semi, R, hsemi, hF => by
+      obtain ⟨hIf, hThen, hEnd, hc, hb, hx⟩ := hwf
       simp only [St.need] at hF
       obtain ⟨g, rfl⟩ : ∃ g, F = g + 4 := ⟨F - 4, by omega⟩
       have hKend : isCloser kEnd.ty = true := by rw [hEnd]; decide
-      have hexp := expression_reads c (kThen :: (body.toks ++ kEnd :: semi :: R)) (g + 2) hc
+      have hT := elifs_head elifs hx kEnd (semi :: R) hKend
+      have hexp := expression_reads c (kThen :: (body.toks ++ (elifs.toks ++ kEnd :: semi :: R))) (g + 2) hc
         (ends_kw kThen _ (Or.inl hThen)) (by omega)
-      have hbody := opt_body_reads body (g + 2) kEnd (semi :: R) hKend
-        (fun hne => stl_reads body hb hne g kEnd (semi :: R) hKend (by omega))
-      have hif := ifStatement_reads (g + 2) kIf kThen kEnd c.toks body.toks (semi :: R) c.sx _ hIf hThen hEnd
-        (ws_toks c 0 _ hc) hexp (ws_stl body hb kEnd _ hKend) hbody
-      have htoks : (St.ifS kIf kThen c body kEnd).toks ++ semi :: R = kIf :: (c.toks ++ kThen :: (body.toks ++ kEnd :: semi :: R)) := by
+      have hbody := opt_body_readsT body (g + 2) (elifs.toks ++ kEnd :: semi :: R) hT
+        (fun hne => by
+          obtain ⟨K', R', hK', heq⟩ := hT
+          rw [heq]
+          exact stl_reads body hb hne g K' R' hK' (by omega))
+      have helifs := elifs_sepBy elifs (g + 2) kEnd (semi :: R)
+        (elifs_chainW elifs hx g kEnd (semi :: R) hKend (by rw [hEnd]; decide) (by omega))
+      have hif := ifStatement_reads (g + 2) kIf kThen kEnd c.toks body.toks (elifs.toks ++ kEnd :: semi :: R) (semi :: R) c.sx _ elifs.sxs
+        hIf hThen hEnd (ws_toks c 0 _ hc) hexp (ws_stlT body hb _ hT) hbody (ws_T _ hT) helifs
+      have htoks : (St.ifS kIf kThen c body elifs kEnd).toks ++ semi :: R
+          = kIf :: (c.toks ++ kThen :: (body.toks ++ (elifs.toks ++ kEnd :: semi :: R))) := by
         simp [St.toks, List.append_assoc]
       rw [htoks, statement]
       rw [orElse_none _ _ _ (assignAlt_none _ kIf _ (by rw [hIf]; decide) (by rw [hIf]; decide))]
       apply orElse_some
       rw [hif, sxs_getD]
       rfl
-    | .ifElse kIf kThen c body kElse els kEnd, hwf, F, semi, R, hsemi, hF => by
-      obtain ⟨hIf, hThen, hElse, hEnd, hc, hb, he, hene⟩ := hwf
+    | .ifElse kIf kThen c body elifs kElse els kEnd, hwf, F, semi, R, hsemi, hF => by
+      obtain ⟨hIf, hThen, hElse, hEnd, hc, hb, he, hene, hx⟩ := hwf
       simp only [St.need] at hF
       obtain ⟨g, rfl⟩ : ∃ g, F = g + 4 := ⟨F - 4, by omega⟩
       have hKend : isCloser kEnd.ty = true := by rw [hEnd]; decide
       have hKelse : isCloser kElse.ty = true := by rw [hElse]; decide
-      have hexp := expression_reads c (kThen :: (body.toks ++ kElse :: (els.toks ++ kEnd :: semi :: R))) (g + 2) hc
+      have hT := elifs_head elifs hx kElse (els.toks ++ kEnd :: semi :: R) hKelse
+      have hexp := expression_reads c (kThen :: (body.toks ++ (elifs.toks ++ kElse :: (els.toks ++ kEnd :: semi :: R)))) (g + 2) hc
         (ends_kw kThen _ (Or.inl hThen)) (by omega)
-      have hbody := opt_body_reads body (g + 2) kElse (els.toks ++ kEnd :: semi :: R) hKelse
-        (fun hne => stl_reads body hb hne g kElse _ hKelse (by omega))
+      have hbody := opt_body_readsT body (g + 2) (elifs.toks ++ kElse :: (els.toks ++ kEnd :: semi :: R)) hT
+        (fun hne => by
+          obtain ⟨K', R', hK', heq⟩ := hT
+          rw [heq]
+          exact stl_reads body hb hne g K' R' hK' (by omega))
+      have helifs := elifs_sepBy elifs (g + 2) kElse (els.toks ++ kEnd :: semi :: R)
+        (elifs_chainW elifs hx g kElse _ hKelse (by rw [hElse]; decide) (by omega))
       have hels := stl_reads els he hene g kEnd (semi :: R) hKend (by omega)
-      have hif := ifElse_reads (g + 2) kIf kThen kElse kEnd c.toks body.toks els.toks (semi :: R) c.sx _ els.sxs
-        hIf hThen hElse hEnd (ws_toks c 0 _ hc) hexp (ws_stl body hb kElse _ hKelse) hbody (ws_stl els he kEnd _ hKend) hels
-      have htoks : (St.ifElse kIf kThen c body kElse els kEnd).toks ++ semi :: R
-          = kIf :: (c.toks ++ kThen :: (body.toks ++ kElse :: (els.toks ++ kEnd :: semi :: R))) := by
+      have hif := ifElse_reads (g + 2) kIf kThen kElse kEnd c.toks body.toks (elifs.toks ++ kElse :: (els.toks ++ kEnd :: semi :: R))
+        els.toks (semi :: R) c.sx _ elifs.sxs els.sxs
+        hIf hThen hElse hEnd (ws_toks c 0 _ hc) hexp (ws_stlT body hb _ hT) hbody (ws_T _ hT) helifs (ws_stl els he kEnd _ hKend) hels
+      have htoks : (St.ifElse kIf kThen c body elifs kElse els kEnd).toks ++ semi :: R
+          = kIf :: (c.toks ++ kThen :: (body.toks ++ (elifs.toks ++ kElse :: (els.toks ++ kEnd :: semi :: R)))) := by
         simp [St.toks, List.append_assoc]
       rw [htoks, statement]
       rw [orElse_none _ _ _ (assignAlt_none _ kIf _ (by rw [hIf]; decide) (by rw [hIf]; decide))]
@@ -879,58 +992,70 @@ mutual
       exact statementList_reads g s semi rest K R hs hsemi hrest hK
         (st_reads s hs g semi (rest.toks ++ K :: R) hsemi (by omega))
         (stl_chain rest hrest g semi K R hsemi hK (by omega))
+
+  theorem elifs_chainW : (e : Elifs) → e.WF → ∀ (g : Nat) (K : Item) (R : List Item),
+      isCloser K.ty = true → K.ty ≠ "Elsif" → e.need ≤ g → ChainW (elsifP (g + 2)) (segsE e) (K :: R)
+    | .nil, _, g, K, R, hK, hne, _ => ⟨elsifP_none _ K R hne, ws_cons _ _ (closer_not_trivia hK)⟩
+    | .cons kE kT c body rest, hwf, g, K, R, hK, hne, hg => by
+      obtain ⟨hE, hT, hc, hb, hbne, hrest⟩ := hwf
+      simp only [Elifs.need] at hg
+      have hKe : isCloser kE.ty = true := by rw [hE]; decide
+      have hfl : flat (segsE rest) ++ K :: R = rest.toks ++ K :: R := by rw [flat_segsE]
+      have hTl := elifs_head rest hrest K R hK
+      refine ⟨by simp, ?_, ?_, elifs_chainW rest hrest g K R hK hne (by omega)⟩
+      · exact ws_cons _ _ (closer_not_trivia hKe)
+      · rw [hfl]
+        have hexp := expression_reads c (kT :: (body.toks ++ (rest.toks ++ K :: R))) (g + 2) hc
+          (ends_kw kT _ (Or.inl hT)) (by omega)
+        have hbody : statementList (g + 2) (body.toks ++ (rest.toks ++ K :: R)) = some (body.sxs, rest.toks ++ K :: R) := by
+          obtain ⟨K', R', hK', heq⟩ := hTl
+          rw [heq]
+          exact stl_reads body hb hbne g K' R' hK' (by omega)
+        have := elsifP_reads (g + 2) kE kT c.toks body.toks (rest.toks ++ K :: R) c.sx body.sxs hE hT
+          (ws_toks c 0 _ hc) hexp (ws_stlT body hb _ hTl) hbody
+        simpa [List.append_assoc] using this
 end
 
 
 /-! ### the fuel of the driver is enough -/
 
-theorem need_le_toks : (∀ s : St, s.need ≤ 5 * s.toks.length) ∧ (∀ l : Stl, l.need ≤ 5 * l.toks.length) := by
-  have hS := S.need_le
-  refine ⟨fun s => ?_, fun l => ?_⟩
-  · induction s using St.rec (motive_2 := fun l => l.need ≤ 5 * l.toks.length) with
-    | assign n a e => have := hS e; simp only [St.need, St.toks, List.length_cons]; omega
-    | ifS kIf kThen c body kEnd ih =>
-      have := hS c; simp only [St.need, St.toks, List.length_cons, List.length_append, List.length_nil]; omega
-    | ifElse kIf kThen c body kElse els kEnd ih1 ih2 =>
-      have := hS c; simp only [St.need, St.toks, List.length_cons, List.length_append, List.length_nil]; omega
-    | whileS kW kDo c body kEnd ih =>
-      have := hS c; simp only [St.need, St.toks, List.length_cons, List.length_append, List.length_nil]; omega
-    | repeatS kR body kU c kEnd ih =>
-      have := hS c; simp only [St.need, St.toks, List.length_cons, List.length_append, List.length_nil]; omega
-    | forS kFor ctl asg frm kTo to step kDo body kEnd ih =>
-      have h1 := hS frm; have h2 := hS to
-      cases step with
-      | none => simp only [St.need, St.toks, List.length_cons, List.length_append, List.length_nil]; omega
-      | some p =>
-        obtain ⟨kBy, st⟩ := p
-        have h3 := hS st
-        simp only [St.need, St.toks, List.length_cons, List.length_append, List.length_nil]; omega
-    | exitS k => simp [St.need, St.toks]
-    | returnS k => simp [St.need, St.toks]
-    | nil => simp [Stl.need, Stl.toks]
-    | cons s semi rest ih1 ih2 => simp only [Stl.need, Stl.toks, List.length_cons, List.length_append]; omega
-  · induction l using Stl.rec (motive_1 := fun s => s.need ≤ 5 * s.toks.length) with
-    | assign n a e => have := hS e; simp only [St.need, St.toks, List.length_cons]; omega
-    | ifS kIf kThen c body kEnd ih =>
-      have := hS c; simp only [St.need, St.toks, List.length_cons, List.length_append, List.length_nil]; omega
-    | ifElse kIf kThen c body kElse els kEnd ih1 ih2 =>
-      have := hS c; simp only [St.need, St.toks, List.length_cons, List.length_append, List.length_nil]; omega
-    | whileS kW kDo c body kEnd ih =>
-      have := hS c; simp only [St.need, St.toks, List.length_cons, List.length_append, List.length_nil]; omega
-    | repeatS kR body kU c kEnd ih =>
-      have := hS c; simp only [St.need, St.toks, List.length_cons, List.length_append, List.length_nil]; omega
-    | forS kFor ctl asg frm kTo to step kDo body kEnd ih =>
-      have h1 := hS frm; have h2 := hS to
-      cases step with
-      | none => simp only [St.need, St.toks, List.length_cons, List.length_append, List.length_nil]; omega
-      | some p =>
-        obtain ⟨kBy, st⟩ := p
-        have h3 := hS st
-        simp only [St.need, St.toks, List.length_cons, List.length_append, List.length_nil]; omega
-    | exitS k => simp [St.need, St.toks]
-    | returnS k => simp [St.need, St.toks]
-    | nil => simp [Stl.need, Stl.toks]
-    | cons s semi rest ih1 ih2 => simp only [Stl.need, Stl.toks, List.length_cons, List.length_append]; omega
+mutual
+  theorem st_need_le : (s : St) → s.need ≤ 5 * s.toks.length
+    | .assign n a e => by have := S.need_le e; simp only [St.need, St.toks, List.length_cons]; omega
+    | .ifS kIf kThen c body elifs kEnd => by
+      have := S.need_le c; have := stl_need_le body; have := elifs_need_le elifs
+      simp only [St.need, St.toks, List.length_cons, List.length_append, List.length_nil]; omega
+    | .ifElse kIf kThen c body elifs kElse els kEnd => by
+      have := S.need_le c; have := stl_need_le body; have := elifs_need_le elifs; have := stl_need_le els
+      simp only [St.need, St.toks, List.length_cons, List.length_append, List.length_nil]; omega
+    | .whileS kW kDo c body kEnd => by
+      have := S.need_le c; have := stl_need_le body
+      simp only [St.need, St.toks, List.length_cons, List.length_append, List.length_nil]; omega
+    | .repeatS kR body kU c kEnd => by
+      have := S.need_le c; have := stl_need_le body
+      simp only [St.need, St.toks, List.length_cons, List.length_append, List.length_nil]; omega
+    | .forS kFor ctl asg frm kTo to none kDo body kEnd => by
+      have := S.need_le frm; have := S.need_le to; have := stl_need_le body
+      simp only [St.need, St.toks, List.length_cons, List.length_append, List.length_nil]; omega
+    | .forS kFor ctl asg frm kTo to (some (kBy, st)) kDo body kEnd => by
+      have := S.need_le frm; have := S.need_le to; have := S.need_le st; have := stl_need_le body
+      simp only [St.need, St.toks, List.length_cons, List.length_append, List.length_nil]; omega
+    | .exitS k => by simp [St.need, St.toks]
+    | .returnS k => by simp [St.need, St.toks]
+  theorem stl_need_le : (l : Stl) → l.need ≤ 5 * l.toks.length
+    | .nil => by simp [Stl.need, Stl.toks]
+    | .cons s semi rest => by
+      have := st_need_le s; have := stl_need_le rest
+      simp only [Stl.need, Stl.toks, List.length_cons, List.length_append]; omega
+  theorem elifs_need_le : (e : Elifs) → e.need ≤ 5 * e.toks.length
+    | .nil => by simp [Elifs.need, Elifs.toks]
+    | .cons kE kT c body rest => by
+      have := S.need_le c; have := stl_need_le body; have := elifs_need_le rest
+      simp only [Elifs.need, Elifs.toks, List.length_cons, List.length_append]; omega
+end
+
+theorem need_le_toks : (∀ s : St, s.need ≤ 5 * s.toks.length) ∧ (∀ l : Stl, l.need ≤ 5 * l.toks.length) :=
+  ⟨st_need_le, stl_need_le⟩
 
 /-- **The mirror reads every well-formed statement list back as its tree**, with the fuel the driver gives
 it.  `K` is the keyword that closes the list (END_IF, ELSE, UNTIL, END_WHILE, END_PROGRAM, …). -/
